@@ -54,6 +54,13 @@ Proof. exact every_place_is_found. Qed.
 Theorem places_extend_the_starting_point : forall rest ss chunk branch p, In p (paths rest ss chunk branch) ->
   List.length p = List.length branch + List.length rest /\ firstn (List.length branch) p = branch.
 Proof. exact paths_extend. Qed.
+(* ... and the places found are the places the dependent results are merged into: followed point by point the way
+   ExtractValueModifyingSource reads them (through the round-trip theorems above, whatever the ids contain), a found
+   path leads to exactly the object whose id it ends with *)
+Theorem found_places_lead_to_the_objects_they_name : forall rest ss chunk branch p,
+  Forall clean_key rest -> In p (paths rest ss chunk branch) ->
+  exists q o, p = branch ++ q /\ resolve q chunk = Some o /\ (rest <> [] -> last_id q = id_of o).
+Proof. exact found_places_are_where_results_go. Qed.
 (* the selection of a path element is the field of the current level (after fix 61dcc21; the pinned depth-first search
    returned a same-named field nested in an earlier sibling: depth_first_was_shadowed) *)
 Theorem the_selection_of_this_level_wins : forall p ss c,
@@ -76,3 +83,4 @@ Print Assumptions every_place_of_a_conforming_result_is_found.
 Print Assumptions places_extend_the_starting_point.
 Print Assumptions the_selection_of_this_level_wins.
 Print Assumptions one_entry_without_id_hides_the_other_places.
+Print Assumptions found_places_lead_to_the_objects_they_name.
